@@ -75,6 +75,17 @@ def check_c18(tier):
             violations.append({"sig": "C18:" + sorted(v["bad"])[0],
                                "what": f"{sorted(v['bad'])} differ for vector {v['id']}",
                                "replay": {"property": "C18", "record": byid[v["id"]], "bad": v["bad"]}})
+    # the C18 rules of the monitor (budget / limit / fail-fast resolution as observed in driven runs)
+    import engine_runner
+    res = engine_runner.run_engine(tier)
+    tr = engine_runner.run_tracing_engine(tier)
+    badc = {c["id"]: c for c in res["bad_cases"] + tr["bad_cases"]}
+    for v in res["viols"] + tr["viols"]:
+        if v["prop"] == "C18":
+            violations.append({"sig": f"C18:{v['rule']}",
+                               "what": f"{v['rule']} (driven case {v['case']}, record seq {v['seq']})",
+                               "replay": {"property": "C18", "rule": v["rule"], "seq": v["seq"],
+                                          "case": badc.get(v["case"])}})
     nontrivial = sum(1 for r in recs if r["actual"]["some"] or r["vec"]["cliConc"] != -1
                      or r["vec"]["bldConc"] != 0 or r["vec"]["cliFF"] or r["vec"]["bldFF"])
     sample = recs[len(recs) // 2]
@@ -83,7 +94,8 @@ def check_c18(tier):
         "generators": gens,
         "checker_cmd": "tlc Gen_RetryOpts.tla (all initial states = all vectors) ; harness pure-retry ; "
                        "tlc -workers 1 Trace_RetryOpts.tla",
-        "traces_validated_against_impl": len(vs),
+        "traces_validated_against_impl": len(vs) + res["ncases"] + tr["ncases"],
+        "driven_runs_judged_by_the_C18_rules_of_the_monitor": res["ncases"] + tr["ncases"],
         "evaluations": len(vs), "distinct_nontrivial": nontrivial,
         "rule": "vectors are the elements of VecA/VecB/VecC of RetryOpts.tla (distinct by construction); "
                 "non-trivial if the real code resolved Some(options) or a "
@@ -283,7 +295,7 @@ def check_c19(tier):
         "rule": "every (keyword, text) pair of 3 keywords x the text pool of Codegen.tla is looked up in "
                 "ZWorld::collection() and executed on a fresh World; non-trivial if some definition matched "
                 "(invoked or failed)",
-        "zoo_functions": 25, "attributes": 27,
+        "zoo_functions": 26, "attributes": 28,
         "samples": [{"query": queries[x["id"]], "real": x} for x in results if x["res"] != "notfound"][:6],
         "tlc_sanity": "LiteralsMatchOnlyThemselves, OneDefPerAttribute, NoAmbiguityInZoo hold for the description",
     }
